@@ -186,9 +186,9 @@ func ParseContracts(files []string) (*Contracts, error) {
 				} else {
 					cur.Opts[rest] = "true"
 				}
-			case "requires", "ensures", "invariant", "modifies", "decreases", "ghost", "assume", "hint", "ensures@panic", "callpure", "frame":
+			case "requires", "ensures", "invariant", "modifies", "decreases", "ghost", "ghostset", "ghostinit", "assume", "hint", "ensures@panic", "callpure", "frame", "assert":
 				cl := Clause{Kind: kw, Text: rest, Line: ln, File: f}
-				if m := labelRe.FindStringSubmatch(rest); m != nil && kw != "modifies" {
+				if m := labelRe.FindStringSubmatch(rest); m != nil && kw != "modifies" && kw != "ghost" && kw != "ghostset" && kw != "ghostinit" {
 					cl.Label = m[1]
 					cl.Text = m[2]
 				}
